@@ -18,7 +18,7 @@ CHECKS = {
         note=TRUSTED + "; hash collisions excluded by assumption."),
     "C01": dict(
         level="model_checking",
-        technique="TLA+ spec (Relayer.tla QuorumOk) + TLC exhaustive case table + replay as real BLS-signed transactions into the real app + TLC trace validation of the table and of random dynamic-membership histories (joins, removals, elections, shared vote keys)",
+        technique="TLA+ spec (Relayer.tla QuorumOk) + TLC exhaustive case table + replay as real BLS-signed transactions into the real app + TLC trace validation of the table and of random dynamic-membership histories (joins, removals, elections, shared vote keys) + TLAPS lemmas on the quorum threshold (unbounded)",
         text="TLC enumerates every bitmap x signer-subset x corruption case for groups of 0..N voters and checks the quorum theorems; "
              "every case is executed as a real transaction (real BLS aggregate over the real sign-doc) by FinalizeBlock of the "
              "unmodified application, and TLC validates the per-transaction verdicts and the full projected relayer state (plus a "
@@ -27,7 +27,7 @@ CHECKS = {
         note=TRUSTED + "; BLS soundness assumed."),
     "C02": dict(
         level="model_checking",
-        technique="TLA+ spec (Relayer.tla) + TLC exhaustive bounded model with an adversary re-submitting every issued vote + TLC trace validation of random real-app histories",
+        technique="TLA+ spec (Relayer.tla) + TLC exhaustive bounded model with an adversary re-submitting every issued vote + TLC trace validation of random real-app histories + export/import cycles validated with the property's own slice",
         text="MC_Relayer explores every interleaving (within bounds) of genuine, withheld and re-submitted votes with elections and "
              "membership changes and checks that no vote id is accepted twice, the sequence steps by exactly one per acceptance and "
              "rejected steps change nothing; random histories of the real application (with immediate and late re-submission under same "
@@ -35,39 +35,39 @@ CHECKS = {
         note=TRUSTED + "; BLS soundness assumed."),
     "C16": dict(
         level="model_checking",
-        technique="TLA+ spec (Relayer.tla) + TLC exhaustive bounded model of boarding/elections + TLC trace validation of random real-app histories under three parameter settings",
+        technique="TLA+ spec (Relayer.tla) + TLC exhaustive bounded model of boarding/elections + TLC trace validation of random real-app histories under three parameter settings + export/import cycles validated with the property's own slice",
         text="MC_Relayer checks group/queue well-formedness, never-halting EndBlocker, join-only-by-proof and election timeliness as "
              "invariants and action properties over all interleavings within bounds; real histories with real ECDSA/BLS proofs (valid, "
              "forged, replayed), execution-layer add/remove lists and block times around both deadlines are validated step by step.",
         note=TRUSTED + "; proof-of-possession soundness assumed."),
     "C11": dict(
         level="model_checking",
-        technique='TLA+ spec (Locking.tla) + TLC exhaustive bounded block model + TLC trace validation of random real-app histories with conservation history variables',
+        technique='TLA+ spec (Locking.tla) + TLC exhaustive bounded block model + TLC trace validation of random real-app histories with conservation history variables + TLAPS lemmas on slash / unlock amounts (unbounded) + export/import cycles',
         text='MC_Locking explores every 4-block history over a small request universe with absences and evidence and checks locked = held + slashed + released, non-negativity and unlock <= asked; random histories of the real application are validated block by block (holdings, slashed, locking index, unlock queues) and the conservation law is evaluated on every observed state.',
         note=TRUSTED + "; exact for small integer amounts (stated in the evidence)."),
     "C12": dict(
         level="model_checking",
-        technique='TLA+ spec (Locking.tla reward pool, distribution, claim) + TLC exhaustive bounded model + TLC trace validation of random real-app histories',
+        technique='TLA+ spec (Locking.tla reward pool, distribution, claim) + TLC exhaustive bounded model + TLC trace validation of random real-app histories + TLAPS lemmas on the emission step and share bound (unbounded) + export/import cycles',
         text="The emission schedule, the share computation (transcribed including the 18-digit rounding effect) and claims are specified; TLC checks granted + fees = pools + accrued + claimed exhaustively within bounds and on every observed state of real histories whose pools, accruals and queued payouts must equal the specification's.",
         note=TRUSTED + "; exact for small integer amounts (stated in the evidence)."),
     "C13": dict(
         level="model_checking",
-        technique='TLA+ spec (Locking.tla ranking/top-K/EndBlock, CometBFT acceptance rules) + TLC exhaustive bounded model + TLC trace validation with a real cmttypes.ValidatorSet as acceptance oracle',
+        technique='TLA+ spec (Locking.tla ranking/top-K/EndBlock, CometBFT acceptance rules) + TLC exhaustive bounded model + TLC trace validation with a real cmttypes.ValidatorSet as acceptance oracle + export/import cycles validated with the property's own slice',
         text="EndBlocker is specified as the descending walk over the ranking with the diff against the recorded set; TLC checks top-K, comet = record, ranking/index consistency, never-halting Begin/End and CometBFT acceptance exhaustively within bounds; on real histories the reported update set, ranking, set and statuses must equal the specification's and the real CometBFT validator-set code must accept every update.",
         note=TRUSTED + "; exact for small integer amounts (stated in the evidence)."),
     "C14": dict(
         level="model_checking",
-        technique='TLA+ spec (Locking.tla votes/evidence/punish/unjail) + TLC exhaustive bounded model with action properties + TLC trace validation of random real-app histories',
+        technique='TLA+ spec (Locking.tla votes/evidence/punish/unjail) + TLC exhaustive bounded model with action properties + TLC trace validation of random real-app histories + export/import cycles validated with the property's own slice',
         text='Downtime accounting, slashing (whole amount when the slice truncates to zero), jailing, un-jailing by lock and tombstoning are specified; TLC checks tombstone-forever, jail-only-from-active and unjail-only-after-jail-and-thresholds as action properties; real histories with absences across window boundaries and evidence of every age are compared status by status, counter by counter.',
         note=TRUSTED + "; exact for small integer amounts (stated in the evidence)."),
     "C15": dict(
         level="model_checking",
-        technique='TLA+ spec (Locking.tla unlock queue, maturation, delivery) + TLC exhaustive bounded model + TLC trace validation incl. burst histories beyond the delivery cap',
+        technique='TLA+ spec (Locking.tla unlock queue, maturation, delivery) + TLC exhaustive bounded model + TLC trace validation incl. burst histories beyond the delivery cap + export/import cycles validated with the property's own slice',
         text="Every unlock carries its request time and maturity; TLC checks delivery time >= maturity, delivered-once and the exit rule exhaustively within bounds; on real histories both queues, the nonce and the decoded complete-unlock system transactions of each payload must equal the specification's, including bursts of more than 16 unlocks maturing together.",
         note=TRUSTED + "; exact for small integer amounts (stated in the evidence)."),
     "C03": dict(
         level="model_checking",
-        technique='TLA+ spec (Bridge.tla NewDeposits/NewBlockHashes/tax) + TLC exhaustive bounded deposit universe + TLC trace validation of real-app histories over a simulated Bitcoin chain',
+        technique='TLA+ spec (Bridge.tla NewDeposits/NewBlockHashes/tax) + TLC exhaustive bounded deposit universe + TLC trace validation of real-app histories over a simulated Bitcoin chain + TLAPS lemmas on the tax arithmetic (unbounded) + export/import cycles',
         text="The deposit checks are specified in the code's order over abstract deposit facts; TLC explores every batch over a small universe of transactions and flaws with hash votes and tax updates and checks credited-once, value = amount + tax, tax < value; real histories with real transactions, headers, Merkle proofs and votes are validated message by message, and the decoded deposit system transactions of every payload must equal the specification's queue.",
         note=TRUSTED + "; hash collisions excluded; votes genuine unless built otherwise."),
     "C05": dict(
@@ -82,12 +82,12 @@ CHECKS = {
         note=TRUSTED + "; hash collisions excluded; votes genuine unless built otherwise."),
     "C20": dict(
         level="model_checking",
-        technique='TLA+ spec (Bridge.tla ParamWalk/TaxOf) + TLC exhaustive update sequences over boundary values + TLC trace validation of real-app histories',
+        technique='TLA+ spec (Bridge.tla ParamWalk/TaxOf) + TLC exhaustive update sequences over boundary values + TLC trace validation of real-app histories + TLAPS lemmas: tax < value, credited amount > 0, tax <= cap (unbounded)',
         text='TLC checks rate < 10000, minimum deposit >= dust and confirmations >= 1 after every sequence of updates over boundary values from boundary initial sets, and that no credited deposit has tax >= value or amount 0; the same boundary values are sent to the real application as execution-layer request lists and the stored parameters and resulting deposit amounts are compared.',
         note=TRUSTED + "; hash collisions excluded; votes genuine unless built otherwise."),
     "C06": dict(
         level="model_checking",
-        technique='TLA+ spec (Handover.tla queues/DueList/AfterDelivery) + TLC exhaustive bounded model with failing blocks, abandoned rounds, engine faults and crashes + TLC trace validation of whole-application histories through the real ABCI surface',
+        technique='TLA+ spec (Handover.tla queues/DueList/AfterDelivery) + TLC exhaustive bounded model with failing blocks, abandoned rounds, engine faults and crashes + TLC trace validation of whole-application histories through the real ABCI surface + TLC liveness check (every enqueued item is eventually handed over under fair good blocks) + export/import cycles',
         text='MC_Handover checks handed-is-prefix-of-enqueued, nothing dropped, no duplicates, nonces = counts, caps and only-commit-changes-state over all interleavings within bounds; real histories (real Prepare/Process/Finalize/Commit, real mempool, over-filled queues, faulty proposals, abandoned rounds, crashes) are validated block by block: decoded system transactions = due prefix, consecutive nonces, committed queues only grow at the tail.',
         note=TRUSTED),
     "C07": dict(
